@@ -1082,7 +1082,7 @@ func vfC01CorpusCoq(s *vfC01Ser) (repos, docs, langs string) {
 	for _, k := range vfSortedKeys(d.metaData.LanguageMap) {
 		ls = append(ls, cPair(cRunes(k), cN(uint64(d.metaData.LanguageMap[k]))))
 	}
-	return cListOr(rs, "repo_row"), cListOr(ds, "doc_row"), cListOr(ls, "list N * N")
+	return cListOr(rs, "repo_row"), cListOr(ds, "sdoc_row"), cListOr(ls, "list N * N")
 }
 
 func (s *vfC01Ser) folds() string {
